@@ -65,7 +65,15 @@ def arg_vectors(ab, ep, rng, n):
             if not body_vals:
                 ok = False
             else:
-                v["body"] = body_vals[i % len(body_vals)]
+                bv = body_vals[i % len(body_vals)]
+                if bv[0] == "model" and any(str(b.body_type.value if hasattr(b.body_type, "value") else b.body_type) == "files" for b in ep.bodies) and i % 2 == 0:
+                    # binary attributes of a multipart body model cannot come from JSON: attach File objects to every other vector
+                    m = next((m for m in ab.models if str(m.class_info.name) == bv[1]), None)
+                    files = {str(p.python_name): ("F1LE\x00\xff%d" % i).encode("latin-1").hex() for p in ((m.required_properties or []) + (m.optional_properties or []) if m else [])
+                             if type(p).__name__ == "FileProperty" and str(p.python_name) == p.name}
+                    if files:
+                        bv = (bv[0], bv[1], bv[2], files)
+                v["body"] = bv
         if ok:
             vecs.append(v)
     return vecs
